@@ -234,6 +234,18 @@ func (c *LocalReusableWorkflowCache) writeCache(key string, val *ReusableWorkflo
 //
 // Calling this method is thread-safe.
 func (c *LocalReusableWorkflowCache) FindMetadata(spec string) (*ReusableWorkflowMetadata, error) {
+	return c.findMetadata(spec, true)
+}
+
+// peekMetadata is FindMetadata for callers which only need the metadata and do not own the report
+// of a broken workflow file. A failure is not remembered, so the caller that owns the report (the
+// job calling the workflow) still gets the error even when it is visited later.
+func (c *LocalReusableWorkflowCache) peekMetadata(spec string) *ReusableWorkflowMetadata {
+	m, _ := c.findMetadata(spec, false)
+	return m
+}
+
+func (c *LocalReusableWorkflowCache) findMetadata(spec string, rememberFailure bool) (*ReusableWorkflowMetadata, error) {
 	if c.proj == nil || !strings.HasPrefix(spec, "./") || ContainsExpression(spec) {
 		return nil, nil
 	}
@@ -247,18 +259,24 @@ func (c *LocalReusableWorkflowCache) FindMetadata(spec string) (*ReusableWorkflo
 	if s, err := os.Stat(file); err == nil && !s.Mode().IsRegular() {
 		// Do not try to read directories, devices, named pipes, ... Reading them can block forever
 		// or consume memory endlessly. For example "./../../../dev/zero" never reaches EOF.
-		c.writeCache(spec, nil)
+		if rememberFailure {
+			c.writeCache(spec, nil)
+		}
 		return nil, fmt.Errorf("could not read reusable workflow file for %q: %q is not a regular file", spec, file)
 	}
 	src, err := os.ReadFile(file)
 	if err != nil {
-		c.writeCache(spec, nil) // Remember the workflow file was not found
+		if rememberFailure {
+			c.writeCache(spec, nil) // Remember the workflow file was not found
+		}
 		return nil, fmt.Errorf("could not read reusable workflow file for %q: %w", spec, err)
 	}
 
 	m, err := parseReusableWorkflowMetadata(src)
 	if err != nil {
-		c.writeCache(spec, nil) // Remember the workflow file was invalid
+		if rememberFailure {
+			c.writeCache(spec, nil) // Remember the workflow file was invalid
+		}
 		msg := strings.ReplaceAll(err.Error(), "\n", " ")
 		return nil, fmt.Errorf("error while parsing reusable workflow %q: %s", spec, msg)
 	}
